@@ -8,6 +8,7 @@ import (
 	"errors"
 	"fmt"
 	"io"
+	"net/http"
 	"os"
 	"path/filepath"
 	"runtime/debug"
@@ -253,6 +254,7 @@ func NewWorld(spec *WorldSpec, schedSeed uint64, policy int, faults []Fault) *Wo
 		p.Path = is.PathPfx
 		p.AuthQuery = is.AuthQuery
 		p.ServerCA = is.ServerCA
+		p.SharedDisc = is.SharedDisc
 		p.Knobs = is.Knobs
 		// keys: IdP i signs with ecKeys[2i] (active) and may rotate to ecKeys[2i+1]
 		// every provider has its own keys: two EC keys (active + rotation target) and, for the first two, an RSA key
@@ -279,7 +281,41 @@ func NewWorld(spec *WorldSpec, schedSeed uint64, policy int, faults []Fault) *Wo
 
 // StartNet starts the IdP servers (inside the bubble).
 func (w *World) StartNet(tlsFor func(*IdP) any) {
+	// providers that share one host are served by one server: their endpoints live under their path
+	// prefixes, the discovery document under one path is selected by ?p=<name>
+	shared := map[string][]*IdP{}
 	for _, p := range w.IdPs {
+		if p.SharedDisc {
+			shared[p.Host] = append(shared[p.Host], p)
+		}
+	}
+	for host, ps := range shared {
+		mux := http.NewServeMux()
+		for _, p := range ps {
+			mux.Handle(p.Path+"/", p.Handler())
+		}
+		ps := ps
+		mux.HandleFunc("/.well-known/openid-configuration", func(rw http.ResponseWriter, r *http.Request) {
+			for _, p := range ps {
+				if r.URL.Query().Get("p") == p.Name {
+					r2 := r.Clone(r.Context())
+					r2.URL.Path = p.Path + "/.well-known/openid-configuration"
+					p.Handler().ServeHTTP(rw, r2)
+					return
+				}
+			}
+			http.NotFound(rw, r)
+		})
+		h := host
+		if !strings.Contains(h, ":") {
+			h += ":80"
+		}
+		w.Net.Serve(h, mux, nil)
+	}
+	for _, p := range w.IdPs {
+		if p.SharedDisc {
+			continue
+		}
 		host := p.Host
 		if !strings.Contains(host, ":") {
 			if p.Scheme == "https" {
